@@ -52,7 +52,7 @@ pub fn gen_sched_script(t: &mut Tape, p: &SchedProfile) -> Script {
         min_wait_ms: if t.chance(p.min_wait.0, p.min_wait.1) { Some(*t.pick(&[60_000u64, 1, 7_000])) } else { None },
     });
     s.check_decisions = t.vec_of(6, |t| CheckDecisionSpec {
-        kind: if t.chance(1, 4) { 2 + t.choose(3) as u8 } else { 0 },
+        kind: if t.chance(1, 4) { 2 + t.choose(3) as u8 } else { t.weighted(&[3, 1]) as u8 },
         // the policy may echo the request's options into the parameters, or decide otherwise
         source_on_demand: match t.weighted(&[3, 1, 1]) {
             0 => None,
